@@ -133,8 +133,13 @@ def c04_runs(tier):
     # millisecond-granular methods fork more per iteration (rounding) and get fewer iterations
     for m, R in ((0, 7 if q else 9), (1, 5 if q else 7), (2, 5 if q else 7), (3, 4 if q else 5)):
         r += per_method('subsec', [m], ['timer.handler-ran'], K=1, T=2, R=R, acts=A_TIMER, A=1,
-                        L=1 if q else 2, symtruth=0, symtime=2, patterns=1)
+                        L=1, symtruth=0, symtime=2, patterns=1)
     r[0]['covers'] += ['C04.timerfd-armed', 'C04.unbounded-wait-relies-on-timerfd']
+    if not q:
+        # two timer operations, fewer iterations
+        for m, R in ((0, 7), (1, 5), (2, 5), (3, 4)):
+            r += per_method('subsec.two-ops', [m], ['timer.handler-ran'], K=1, T=2, R=R, acts=A_TIMER, A=1,
+                            L=2, symtruth=0, symtime=2, patterns=1)
     r += per_method('fullpair', [0, 2] if q else [0, 1, 2, 3], ['timer.handler-ran'], K=0, T=2, R=2, acts=A_TIMER,
                     A=1, L=1, symtruth=0, symtime=1)
     # interrupted waits: part of the timeout has elapsed when EINTR comes back
@@ -399,8 +404,7 @@ def c11_runs(tier, hb=0):
          # is still inside its collection loop when the next one arrives and the owner is already reacting
          mt_run('two-loops.reaper-elsewhere.paced', h,
                 ['wait.reaper-is-another-thread', 'wait.termination-delivered', 'wait.batch-of-several-statuses'],
-                preempt=1 if q else 2, C=3, strangers=0, events=2 if q else 3, twoloops=2, ops=0, unreg=0, worldwait=1,
-                hb=hb),
+                preempt=1 if q else 2, C=3, strangers=0, events=2 if q else 3, twoloops=2, ops=1, worldwait=1, hb=hb),
          # the owner unregisters an interest (an interior node of the shared tree) on its own while the
          # reaper thread may be collecting that very child
          mt_run('two-loops.spontaneous-unregister', h,
